@@ -9,7 +9,8 @@ invalid-event exclusion and the event limit; `spec` is the stateless conjunction
 All theorems quantify over: every dataset `d` (any number of events and scalar features with
 distinct names, values `nan`, `±inf`, any rational), every point-in-polygon function `pip`,
 every random source `choice`, and every finite history of operations
-{set/change a min or max key, remove a key, create/modify a polygon (axes, points, inverted),
+{set/change a min or max key, remove a key, create a polygon or edit its axes, points or
+inverted flag in place (each alone or together; the content triple is the cache key),
 add/remove a polygon filter, toggle invalid removal, toggle enable, set/clear the limit, edit
 the manual array, reset, apply (with or without `force`)}.  An `apply` while some feature has
 only one of min/max set raises `ValueError` – the history simply continues.  The only
@@ -71,6 +72,9 @@ theorem step_refines (hd : (d.cols.map (fun e => e.1)).Nodup) (s : Sys) (op : Op
   | setKey f mx v => exact ⟨hkeep _, rfl, rfl, rfl, fun f hf => by cases hf⟩
   | popKey f mx => exact ⟨hkeep _, rfl, rfl, rfl, fun f hf => by cases hf⟩
   | polySet id p => exact ⟨hkeep _, rfl, rfl, rfl, fun f hf => by cases hf⟩
+  | polyAxes id ax ay => exact ⟨hkeep _, rfl, rfl, rfl, fun f hf => by cases hf⟩
+  | polyPoints id sh => exact ⟨hkeep _, rfl, rfl, rfl, fun f hf => by cases hf⟩
+  | polyInv id b => exact ⟨hkeep _, rfl, rfl, rfl, fun f hf => by cases hf⟩
   | polyAdd id => exact ⟨hkeep _, rfl, rfl, rfl, fun f hf => by cases hf⟩
   | polyRm id => exact ⟨hkeep _, rfl, rfl, rfl, fun f hf => by cases hf⟩
   | setInvalid b => exact ⟨hkeep _, rfl, rfl, rfl, fun f hf => by cases hf⟩
@@ -110,6 +114,9 @@ theorem update_refines_spec (hd : (d.cols.map (fun e => e.1)).Nodup) :
     | setKey f mx v => simp only [runAll, specAll]; exact hrec
     | popKey f mx => simp only [runAll, specAll]; exact hrec
     | polySet id p => simp only [runAll, specAll]; exact hrec
+    | polyAxes id ax ay => simp only [runAll, specAll]; exact hrec
+    | polyPoints id sh => simp only [runAll, specAll]; exact hrec
+    | polyInv id b => simp only [runAll, specAll]; exact hrec
     | polyAdd id => simp only [runAll, specAll]; exact hrec
     | polyRm id => simp only [runAll, specAll]; exact hrec
     | setInvalid b => simp only [runAll, specAll]; exact hrec
@@ -364,6 +371,14 @@ theorem wF25_valid : ValidHist .f25 wChoice wPip wData (Sys.init 3) wF25 := by
 
 /-- … and the raising apply really is in it -/
 example : anyHalf (run .f25 wChoice wPip wData (Sys.init 3) (wF25.take 6)).cfg.ranges = true := by
+  decide +kernel
+
+/-- changing only the axes of an applied polygon filter re-evaluates it on the new feature pair -/
+example : runAll .f25 wChoice (fun _ x _ => vle (.fin 1) x && vle x (.fin 5)) wData (Sys.init 3)
+    [.polySet 1 ⟨0, 1, 7, false⟩, .polyAdd 1, .apply [], .polyAxes 1 1 0, .apply [],
+     .polyInv 1 true, .apply [], .polyPoints 1 8, .apply []]
+    = [some [false, true, true], some [true, false, false], some [false, true, true],
+       some [false, true, true]] := by
   decide +kernel
 
 /-- a history with a polygon filter, a limit, a manual exclusion and a reset -/
